@@ -45,6 +45,9 @@ func (ex *Exec) comp(name, sort string) string {
 	}
 	ex.comps[name] = sort
 	ex.decls = append(ex.decls, fmt.Sprintf("(declare-const %s$init %s)", name, sort))
+	if strings.HasPrefix(name, "Released$") {
+		ex.decls = append(ex.decls, fmt.Sprintf("(assert (= %s$init ((as const %s) false)))", name, sort)) // no lock has been released by this call yet
+	}
 	if strings.HasPrefix(name, "Armed$") {
 		ex.decls = append(ex.decls, fmt.Sprintf("(assert (not %s$init))", name)) // no deferred call is pending at entry
 	}
